@@ -160,6 +160,7 @@ def replay_history(env, acts, texts):
     def retype():
         behave.register_type(**env.retype)
     env.rec.retype = retype
+    env.rec.clear = registry.clear                                   # the public StepRegistry.clear() of the same object
 
     def reg(index, ty, text, func, wrap):
         before = list(registry.steps[ty])
@@ -196,6 +197,8 @@ def replay_history(env, acts, texts):
             modules.append([])
         elif a["a"] == "retype":
             modules[-1].append("_R.retype()")
+        elif a["a"] == "clear":
+            modules[-1].append("_R.clear()")
         elif a["a"] == "reg":
             modules[-1].append("_R.reg(%d, %r, %r, %d, %d)" % (index, a["ty"], j(a["text"]), a["func"], a.get("wrap", 0)))
     for n, lines in enumerate(modules):
@@ -277,6 +280,8 @@ def describe(case_acts):
             out.append("environment: use_step_matcher(%r)" % a["kind"])
         elif a["a"] == "retype":
             out.append("register_type(Colour=<second converter>)")
+        elif a["a"] == "clear":
+            out.append("registry.clear()")
         else:
             out.append("use_step_matcher(%r)" % a["kind"])
     return "; ".join(out)
